@@ -229,6 +229,54 @@ def biclique_shard(combine, transforms, T):
     return tally
 
 
+def biclique_unequal_shard(nc, nn_, skind, T):
+    """Biclique with different numbers of connections and neuron groups (nc -> nn_), stateful synapses (exponential / delayed):
+    every group's output equals the neuron applied to the sum of all connection outputs, and clear() at every position of every
+    history restores every connection, synapse and neuron group (replay equals a fresh layer)."""
+    tally = Tally()
+    hs, xs = inputs_for(T)
+    B = len(hs)
+    Ws = [W1, W2, W3][:nc]
+    case = {"layer": f"Biclique[{nc}->{nn_}]", "connections": nc, "neuron_groups": nn_, "synapse": skind, "T": T}
+    delay = 2.0 if skind == "delta-delayed" else None
+    sk = "delta" if skind == "delta-delayed" else skind
+
+    def mk():
+        conns = [(f"c{i}", dense(B, Ws[i], sk, delay)) for i in range(nc)]
+        neus = [(f"n{j}", lif(B, 1.0 + j)) for j in range(nn_)]
+        return Biclique(conns, neus, combine="sum")
+
+    def step(L, x):
+        out = L({f"c{i}": ((x if i % 2 == 0 else ~x),) for i in range(nc)})
+        return tuple(out[f"n{j}"] for j in range(nn_)) + tuple(L.get_neuron(f"n{j}").voltage.clone() for j in range(nn_))
+
+    try:
+        layer = mk()
+        manual_c = [dense(B, Ws[i], sk, delay) for i in range(nc)]
+        manual_n = [lif(B, 1.0 + j) for j in range(nn_)]
+    except Exception as ex:
+        tally.violation(f"exception:construct:Biclique:{type(ex).__name__}", case, repr(ex))
+        return tally
+    ok = True
+    for t in range(T):
+        tally.add("steps")
+        try:
+            out = step(layer, xs[t])
+        except Exception as ex:
+            tally.violation(f"exception:forward:Biclique[{nc}->{nn_}]:{type(ex).__name__}", {**case, "step": t}, repr(ex))
+            return tally
+        z = sum(manual_c[i](xs[t] if i % 2 == 0 else ~xs[t]) for i in range(nc))
+        for j in range(nn_):
+            ok &= cmp(tally, f"biclique-unequal:output", {**case, "step": t, "neuron": f"n{j}"}, out[j], manual_n[j](z), f"output of n{j}")
+        if not ok:
+            break
+    if ok:
+        clear_replay(tally, case, mk, step, xs, T, None)
+    tally.mark("nontrivial", ("biclique-unequal", nc, nn_, skind))
+    tally.add("histories", B)
+    return tally
+
+
 W2U = torch.tensor([[2.0, 1.0], [1.0, 3.0], [1.0, 1.0]])  # lateral 2 -> 3
 W3U = torch.tensor([[3.0, 0.0, 1.0], [1.0, 2.0, 0.0]])  # feedback 3 -> 2
 
@@ -359,6 +407,9 @@ def run(rep):
     for combine in ("sum", "mean", "prod", "min", "max", "custom"):
         for tr in (False, True):
             jobs.append((biclique_shard, (combine, tr, T)))
+    for nc, nn_ in ((2, 1), (1, 2), (3, 1), (3, 2), (1, 1)):
+        for skind in ("exp", "delta-delayed"):
+            jobs.append((biclique_unequal_shard, (nc, nn_, skind, T)))
     for trainable in (False, True):
         for tr in (False, True):
             jobs.append((recurrent_shard, ((trainable, tr), T)))
@@ -386,7 +437,7 @@ def run(rep):
         "rule": "every boolean input history of length T (as batch) x every layer topology / combine mode / transform choice x every clear "
                 "position; non-trivial = distinct topologies",
     }
-    return rep.finish(cov, floors={"transitions": 150, "distinct_nontrivial": 40})
+    return rep.finish(cov, floors={"transitions": 150, "distinct_nontrivial": 55})
 
 
 def replay(case):
